@@ -173,6 +173,9 @@ func c14Semantic(e *venv, mods []vop, oldIdx, oldPacks map[string]bool) (term, h
 
 var _ = verifRegister("C14", engineC14)
 
+// set by zz_verif_c14_mount.go on platforms that have the fuse package
+var c14MountRead func(ctx context.Context, gopts global.Options) (shown int, errs []string)
+
 func c14View(e *venv) *venv {
 	e2 := &venv{base: e.base, repo: e.repo, cache: e.cache, rec: newRecorder()}
 	e2.gopts = e.gopts
@@ -314,6 +317,76 @@ func engineC14(c *vctx) error {
 			h := fmt.Sprintf("%v backup-in-between=%v -> %v err=%v %s", cmd, fired, tr, err, strings.TrimSpace(stderr))
 			c.Hist(fmt.Sprintf("backup-in-between=%v", fired))
 			c.Case(kind, fired, len(tr), fmt.Sprintf("CReader %s %s", coqList(tr), coqBool(failed)), h)
+		}
+	}
+	// mount as a reader: a complete backup before the at-th backend request of the reader, for every at
+	if c14MountRead != nil {
+		mountRun := func(at int) (ops int, fired bool) {
+			var tr []string
+			var werr error
+			n := 0
+			e.rec.Reset()
+			e.rec.OnOp = func(o *vop) error {
+				if o.Type == backend.LockFile || o.modifying() {
+					return nil
+				}
+				if n == at && !fired {
+					fired = true
+					mutate()
+					_, _, werr = w.cli("backup", src)
+				}
+				n++
+				x := ""
+				switch {
+				case o.Op == "List" && o.Type == backend.SnapshotFile:
+					x = "RListSnap"
+				case o.Op == "List" && o.Type == backend.IndexFile:
+					x = "RListIdx"
+				case o.Op == "Load" && o.Type == backend.SnapshotFile:
+					x = "RLoadSnap 0"
+				case o.Op == "Load" && o.Type == backend.IndexFile:
+					x = "RLoadIdx 0"
+				case o.Op == "Load" && o.Type == backend.PackFile:
+					x = "RUse"
+				}
+				// runs of the same request (loading 40 index files) are recorded once
+				if x != "" && (len(tr) == 0 || tr[len(tr)-1] != x || x == "RListSnap" || x == "RListIdx") {
+					tr = append(tr, x)
+				}
+				return nil
+			}
+			var shown int
+			var errs []string
+			done := make(chan struct{})
+			go func() {
+				defer close(done)
+				_, _, _ = e.run(func(ctx context.Context, gopts global.Options) error {
+					shown, errs = c14MountRead(ctx, gopts)
+					return nil
+				})
+			}()
+			<-done
+			e.rec.OnOp = nil
+			if werr != nil {
+				errs = append(errs, "backup inside the reader failed: "+werr.Error())
+			}
+			if len(tr) > 80 {
+				tr = tr[:80]
+			}
+			c.Case("reader-mount", fired, len(tr), fmt.Sprintf("CMount %s %s", coqList(tr), coqBool(len(errs) > 0)),
+				fmt.Sprintf("mount (LoadIndex, root, ids/*) with a complete backup before its request #%d (ran=%v): %d snapshot directories shown, trace=%v errors=%v", at, fired, shown, tr, errs))
+			return n, fired
+		}
+		total, _ := mountRun(-1)
+		step := 1
+		if !c.thorough() && total > 24 {
+			step = total / 24
+		}
+		for at := 0; at <= total+6; at += step {
+			tick()
+			if _, fired := mountRun(at); !fired {
+				break
+			}
 		}
 	}
 	// writers paused before every upload: rv reads the repository wv writes to
